@@ -144,8 +144,10 @@ class SharedMemoryFileBufferedCollection(FileBufferedCollection):
                         # another (possibly forced) flush afterwards that will
                         # appear invalid if the metadata isn't updated to the
                         # metadata after the current flush.
-                        cached_data["metadata"] = self._get_file_metadata()
+                        # The flag is reset first so that it stays consistent
+                        # with the buffer size even if reading the metadata fails.
                         cached_data["modified"] = False
+                        cached_data["metadata"] = self._get_file_metadata()
         else:
             # If this object is still buffered _and_ this wasn't a force flush,
             # that implies a nesting of buffered contexts in which another
